@@ -52,6 +52,7 @@ import Sds.Proofs.Iter
 import Sds.Proofs.RLQueries
 import Sds.Proofs.RLCanon
 import Sds.Proofs.GenEqCopy
+import Sds.Proofs.GenEqFromExt
 
 namespace Sds.C11
 open Sds Outcome IterProofs
@@ -609,5 +610,12 @@ theorem sparse_copy_bit_vec_as_translated_from_source (m : Mode) (fw len ones : 
       Generated.gen_SparseVector_copy_bit_vec m fw len ones items = ok s ∧
       s.Encodes len (GenEq.spWidth fw len ones) (items.map (·.2)) :=
   GenEq.sp_copy_eq_values m fw len ones items hfw1 hfw2 hu hh hl hones hm hsorted hp
+
+/-! **`FromIterator<bool> for BitVector` as translated from the source on this run** (`Generated/FnsFromExt.lean`):
+`with_capacity(lower_bound)`, one `push_bit` per item, `count_ones` — the bool-iterator route of "built from B by any public
+route" — is the canonical plain bitvector over the bits. -/
+theorem bit_vector_from_iter_as_translated_from_source (m : Mode) (bits : List Bool) (hb : bits.length + 63 < U64) :
+    Generated.gen_BitVector_from_iter m bits = ok (BitVector.ofRaw (RawVec.ofBits bits)) :=
+  GenEq.bv_from_iter_eq m bits hb
 
 end Sds.C11
